@@ -417,6 +417,7 @@ def run_property(pid, tier='quick', seed=0, replay_file=None, nproc=None):
             'wall_s': round(wall, 2),
             'violations': len(new_viol),
         }
+        os.makedirs(EVIDENCE_DIR, exist_ok=True)
         tmp = os.path.join(EVIDENCE_DIR, pid + '.json.tmp')
         with open(tmp, 'w') as f:
             json.dump(ev, f, indent=1, sort_keys=False)
